@@ -427,15 +427,42 @@ def _read_step(fn, target, lean_name, array="self"):
 
 
 # ------------------------------------------------------------------------------------------ sumtrees worker protocol
-def _nat_of_nproc(e):
-    """an expression over `self.num_processes` and small constants -> Lean Nat text"""
+def _nat_of_nproc(e, env=None):
+    """an expression over `self.num_processes`, `len(tree_sources)`, small constants and straight-line temporaries -> Lean Nat text"""
+    env = env or {}
     if isinstance(e, ast.Attribute) and isinstance(e.value, ast.Name) and e.value.id == "self" and e.attr == "num_processes":
         return "num_processes"
+    if isinstance(e, ast.Name) and e.id in env:
+        return env[e.id]
+    if isinstance(e, ast.Call) and isinstance(e.func, ast.Name) and not e.keywords:
+        if e.func.id == "len" and len(e.args) == 1 and isinstance(e.args[0], ast.Name) and e.args[0].id == "tree_sources":
+            return "nfiles"
+        if e.func.id in ("min", "max") and len(e.args) == 2:
+            return "(Nat.%s %s %s)" % (e.func.id, _nat_of_nproc(e.args[0], env), _nat_of_nproc(e.args[1], env))
     if isinstance(e, ast.Constant) and isinstance(e.value, int) and not isinstance(e.value, bool) and e.value >= 0:
         return str(e.value)
     if isinstance(e, ast.BinOp) and isinstance(e.op, (ast.Add, ast.Sub, ast.Mult)):
-        return "(%s %s %s)" % (_nat_of_nproc(e.left), {ast.Add: "+", ast.Sub: "-", ast.Mult: "*"}[type(e.op)], _nat_of_nproc(e.right))
+        return "(%s %s %s)" % (_nat_of_nproc(e.left, env), {ast.Add: "+", ast.Sub: "-", ast.Mult: "*"}[type(e.op)], _nat_of_nproc(e.right, env))
     raise Unsupported("count expression %s" % ast.dump(e)[:100])
+
+
+def _temporaries(fn):
+    """straight-line temporaries of the function body (assigned once, at top level, from a count expression): inlined"""
+    env, seen = {}, {}
+    for n in ast.walk(fn):
+        if isinstance(n, ast.Assign):
+            for t in n.targets:
+                if isinstance(t, ast.Name):
+                    seen[t.id] = seen.get(t.id, 0) + 1
+        if isinstance(n, ast.AugAssign) and isinstance(n.target, ast.Name):
+            seen[n.target.id] = seen.get(n.target.id, 0) + 2
+    for s in fn.body:
+        if isinstance(s, ast.Assign) and len(s.targets) == 1 and isinstance(s.targets[0], ast.Name) and seen.get(s.targets[0].id) == 1:
+            try:
+                env[s.targets[0].id] = _nat_of_nproc(s.value, env)
+            except Unsupported:
+                pass
+    return env
 
 
 def _queue_call(e, queue_attr_or_name, is_self):
@@ -514,6 +541,7 @@ def _worker(fn):
 
 
 def _parent(fn):
+    env = _temporaries(fn)
     events = []     # in source order: ("files",) / ("markers", count) / ("start", count) / ("await", count)
     reraises = updates = False
     for s in fn.body:
@@ -524,7 +552,7 @@ def _parent(fn):
                 if isinstance(n, ast.Expr) and _queue_call(n.value, "work_queue", False) == "put" and len(n.value.args) == 1:
                     a = n.value.args[0]
                     if isinstance(a, ast.Constant) and a.value is None and is_range:
-                        events.append(("markers", _nat_of_nproc(rng.args[0])))
+                        events.append(("markers", _nat_of_nproc(rng.args[0], env)))
                     elif isinstance(a, ast.Name) and isinstance(s.target, ast.Name) and a.id == s.target.id \
                             and getattr(s.iter, "id", None) == "tree_sources":
                         events.append(("files",))
@@ -532,12 +560,12 @@ def _parent(fn):
                         raise Unsupported("work_queue.put(%s)" % ast.dump(a)[:80])
                 if isinstance(n, ast.Expr) and isinstance(n.value, ast.Call) and isinstance(n.value.func, ast.Attribute) \
                         and n.value.func.attr == "start" and is_range:
-                    events.append(("start", _nat_of_nproc(rng.args[0])))
+                    events.append(("start", _nat_of_nproc(rng.args[0], env)))
         for n in ast.walk(s):
             if isinstance(n, ast.While) and isinstance(n.test, ast.Compare) and len(n.test.ops) == 1 \
                     and getattr(n.test.left, "id", None) == "result_count" and any(
                         isinstance(x, ast.Assign) and _queue_call(x.value, "results_queue", False) == "get" for x in ast.walk(n)):
-                cnt = _nat_of_nproc(n.test.comparators[0])
+                cnt = _nat_of_nproc(n.test.comparators[0], env)
                 op = n.test.ops[0]
                 if isinstance(op, ast.Lt):
                     events.append(("await", cnt))
@@ -655,14 +683,14 @@ def generate(repo):
                % (b(blocking), b(stops), b(posts_exc), b(posts_array)))
     out.append("/-- `parallel_analyze_trees`: end-of-work markers put on the work queue, whether they follow the files, workers started,\n"
                "    results awaited by the collation loop, which re-raises a posted exception and merges arrays with `update` -/\n"
-               "def markersPosted (num_processes : Nat) : Nat := %s\ndef markersBehindFiles : Bool := %s\n"
-               "def workersStarted (num_processes : Nat) : Nat := %s\ndef resultsAwaited (num_processes : Nat) : Nat := %s\n"
+               "def markersPosted (num_processes nfiles : Nat) : Nat := %s\ndef markersBehindFiles : Bool := %s\n"
+               "def workersStarted (num_processes nfiles : Nat) : Nat := %s\ndef resultsAwaited (num_processes nfiles : Nat) : Nat := %s\n"
                "def parentReraises : Bool := %s\ndef parentMergesWithUpdate : Bool := %s\n"
                % (markers, b(behind), started, awaited, b(reraises), b(updates)))
     out.append("/-- the work queue as the parent fills it: file indices, then (if so) the markers (`none`) -/\n"
                "def initialQueue (num_processes nfiles : Nat) : List (Option Nat) :=\n  %s\n" % (
-                   "(List.range nfiles).map some ++ List.replicate (markersPosted num_processes) none" if behind or markers == "0"
-                   else "List.replicate (markersPosted num_processes) none ++ (List.range nfiles).map some"))
+                   "(List.range nfiles).map some ++ List.replicate (markersPosted num_processes nfiles) none" if behind or markers == "0"
+                   else "List.replicate (markersPosted num_processes nfiles) none ++ (List.range nfiles).map some"))
     out.append(_analyze_switch(find_function(stree, "TreeProcessor.analyze_trees")))
     out.append("end DendroModel.C06Kernels")
     return "\n".join(out) + "\n"
